@@ -11,7 +11,26 @@ CHECKS: dict[str, tuple[str, str, str, str]] = {}
 NOT_APPLICABLE: dict[str, str] = {}
 
 
+# inputs past the enumerated bound (DESIGN.md section 4, "Past the enumerated bound on every axis")
+PAST_BOUND = {
+    "C01": "files with 8..20 mothers, most of them given two or three blocks",
+    "C06": "registered names of 23..64 characters, a one-character one, 40 names registered at once",
+    "C08": "a ladder file of 13 nested tables; every mother's reference answers from an instance of its own",
+    "C09": "ladder files of 5..30 nested tables",
+    "C10": "ladder files of 5..30 nested tables",
+    "C11": "lines of 12..25 nested decays, modes with 10..14 distinct daughters",
+    "C12": "lines of 12..25 nested decays, modes with 10..14 distinct daughters",
+    "C13": "lines of 12..25 nested decays, modes with 10..14 distinct daughters",
+    "C15": "lines of 12..25 nested decays, modes with 10..14 distinct daughters",
+    "C16": "tables of 9..30 lines with up to 15 distinct values",
+    "C17": "numbers past 2 pi, 180 and 360, 1e4 and 1e-7 among the spellings",
+    "C18": "files with up to 8 sub-decay lines and up to 9 mother lines, randomly interleaved",
+}
+
+
 def check(pid, technique, text, note, ref):
+    if pid in PAST_BOUND:
+        text += " Past the enumerated bound: " + PAST_BOUND[pid] + "."
     CHECKS[pid] = (technique, text, note, ref)
 
 
@@ -51,8 +70,8 @@ check("C14",
       "TLA+ stack machine (spec/Descriptor.tla) model-checked with TLC; TLC-generated behaviours replayed into real with-blocks",
       "TLC checks RestoresEntry / InvalidInert exhaustively on the abstract state graph (2 context objects, 3 valid + 2 invalid "
       "patterns, nesting <= 3) and refutes the two designs the property forbids; every transition of that graph (through a "
-      "shortest path), every operation sequence up to a length bound and random walks of length 14 are replayed with real "
-      "`with` statements, comparing DescriptorFormat.config and a rendered, read-back descriptor after every step.",
+      "shortest path), every operation sequence up to a length bound, random walks of length 14 and random walks with nesting "
+      "up to 12 that then leave every open block (EmitMode drain) are replayed with real `with` statements, comparing DescriptorFormat.config and a rendered, read-back descriptor after every step.",
       "Trusts TLC, the descriptor reader of harness/descriptor.py and Python's with-statement semantics; pattern ids are "
       "concretised from finite pools of spellings.",
       "DESIGN.md section 5, C14")
@@ -238,13 +257,14 @@ check("C19",
 
 check("C20",
       "TLA+ model of the process-wide reader state (spec/AmpSession.tla: shared particle set, class-attribute look-up of the "
-      "cartesian switch) model-checked with TLC for four designs; TLC-emitted histories executed in fresh interpreters and "
+      "cartesian switch, particle table, memoised index lists) model-checked with TLC for six designs; TLC-emitted histories executed in fresh interpreters and "
       "compared with single fresh calls",
-      "TLC checks HistoryIndependent over every history of <= 4 calls (3 reader classes x 6 files, one of them rejected after its "
+      "TLC checks HistoryIndependent over every history of <= 4 calls (3 reader classes x 8 files, one of them rejected after its "
       "option was applied, one naming a particle the special particle table overrides) for the per-read design and refutes the "
       "accumulating one (F8, F13), the one that skips the restore when a read is rejected and the one that loads the special "
-      "particle table on demand. Histories of 2 and 3 calls emitted by TLC (a sample per run) are executed "
-      "each in its own fresh interpreter over 6 real files (disjoint / overlapping resonances, option absent / 0 / 1); every "
+      "particle table on demand, the one that writes a file's mass / width parameters into shared particle objects and the one "
+      "that memoises index lists per amplitude structure. Histories of 2 and 3 calls emitted by TLC (a sample per run) are executed "
+      "each in its own fresh interpreter over 8 real files (disjoint / overlapping resonances, option absent / 0 / 1, two event-type orders, amplitude names of up to 76 characters); every "
       "call's observable result (amplitudes, tables, text as a line multiset without the timestamp) must equal that of the "
       "same single call in a fresh interpreter; single calls are repeated under several PYTHONHASHSEED values; histories are "
       "re-run in a second fresh process and must reproduce the text exactly; the recorded histories are validated by TLC as "
